@@ -117,10 +117,13 @@ FAMILIES["conflictfree"] = dict(SOLVE_FAMILY, rule="as `solve` without locks/exc
 
 FAMILIES["cache"] = {
     "rule": "generated universes (as `solve`) + 5-40 random public SolverCache calls (get_or_cache_candidates / matching / non_matching / sorted (single and union) / dependencies, are_dependencies_available_for), "
-            "1/3 of the cases with a provider whose sort_candidates calls back into the cache; non-trivial = at least one sorted query and one repeated query; distinct by sha256",
-    "nontrivial": lambda c, i: any(l.startswith("op sorted") for l in c) and len([l for l in c if l.startswith("op ")]) > len(set(l for l in c if l.startswith("op "))),
+            "1/3 of the cases with a provider whose sort_candidates calls back into the cache; 1/4 with an asynchronous get_dependencies (requests started, answered, abandoned); 3/20 with an asynchronous "
+            "get_candidates and several concurrent get_or_cache_candidates futures for the same 1-2 packages (started, polled, dropped in any order while the provider answers at some point: "
+            "the provider call log must show one request per package unless the future that sent it was dropped); non-trivial = at least one sorted query and one repeated query, or two concurrent futures for one package; distinct by sha256",
+    "nontrivial": lambda c, i: (any(l.startswith("op sorted") for l in c) and len([l for l in c if l.startswith("op ")]) > len(set(l for l in c if l.startswith("op ")))) or
+                               (lambda st: len(st) > len(set(st)))([l.split()[2] for l in c if l.startswith("op cstart")]),
     "stats": lambda c, i: {"ops": sum(l.startswith("op ") for l in c), "sorted": sum(l.startswith("op sorted") for l in c),
-                           "peek": int("peek 1" in c), "panics": sum(l.startswith("panic") for l in i)},
+                           "peek": int("peek 1" in c), "asynccands": int("asynccands 1" in c), "asyncdeps": int("asyncdeps 1" in c), "panics": sum(l.startswith("panic") for l in i)},
     "compare": exact, "shrinkable": "universe",
     "signature": lambda lines, item: "cache:" + re.sub(r"\d+", "N", item.get("model", ""))[:30],
 }
@@ -355,7 +358,8 @@ PROPS = {
     "C20": {
         "level": "proof", "module": "Resolvo.Props.C20",
         "theorems": ["Resolvo.C20.partition", "Resolvo.C20.matching_exact", "Resolvo.C20.sorted_members", "Resolvo.C20.sorted_favored", "Resolvo.C20.sorted_unfavored",
-                     "Resolvo.C20.sort_is_sorted", "Resolvo.C20.answer_state_independent", "Resolvo.C20.repeat_no_call", "Resolvo.C20.available_iff", "Resolvo.C20.inflight_not_available"],
+                     "Resolvo.C20.sort_is_sorted", "Resolvo.C20.answer_state_independent", "Resolvo.C20.repeat_no_call", "Resolvo.C20.available_iff", "Resolvo.C20.inflight_not_available",
+                     "Resolvo.C20.waiter_no_call", "Resolvo.C20.drop_waiter_keeps_request"],
         "families": [("cache", {"quick": 6000, "thorough": 100000})],
         "assumptions": ["provider contract: filter_candidates is a pure membership filter that returns what it keeps in input order or (1/5 of the generated providers) in reverse input order - the trait promises no order -, sort_candidates a stable sort by a per-solvable key (the table provider of the harness)"],
     },
